@@ -35,7 +35,7 @@ func runC07(p *Prog, l *Ledger) {
 			want = 1.0
 		}
 		for si, s := range af.Stores {
-			skey := fmt.Sprintf("%s/store#%d", key, si+1)
+			skey := fmt.Sprintf("%s/%s", key, af.Keys[si])
 			var bad []string
 			npaths, ngated, nlower := 0, 0, 0
 			_, trunc := EnumPaths(af.Fn, 400000, func(pa *Path) bool {
